@@ -104,4 +104,11 @@ def jobs(tier, seed):
                       {"shapes": [F([S(1), O(1, [(2, []), (1, [])]), R([S(1), S(1)])]), F([S(1)])],
                        "opts": {"select": True, "stop": "sym", "dry_run": "sym", "out_dom": {"*": [0, 1]}, "undef": False}, "checks": base},
                       reach=["C01.verdict==RunSpec"], min_paths=100, cost=800, validate=2000))
+    # two-run history on ONE runner object: the first run may have a raising hook, the second one is fault-free
+    js.append(Job("rerun.same-runner", "vlib.stage1:h_stage1",
+                  {"shapes": [F([S(1, tags=["t1"]), S(1)], tags=["t0"])],
+                   "opts": {"hooks": True, "fault": True, "fault_first_run_only": True, "rerun_reset": True, "rerun_same_runner": True,
+                            "out_dom": {"*": [0, 1]}, "undef": False},
+                   "checks": ["verdict", "rerun"]},
+                  reach=["C02.rerun.verdict==RunSpec(OUT2)"], min_paths=20, cost=300, validate=100))
     return js
